@@ -133,8 +133,11 @@ const TARGETS: &[Target] = &[
     Target { file: "ssz/src/bitfield/bitvector_dynamic.rs", imp: "Bitfield<Dynamic>", tr: "Decode", name: "from_ssz_bytes", coq: "bitdyn_from_ssz_bytes" },
     Target { file: "ssz/src/decode.rs", imp: "trait Decode", tr: "", name: "ssz_fixed_len", coq: "decode_default_ssz_fixed_len" },
     Target { file: "ssz/src/encode.rs", imp: "trait Encode", tr: "", name: "ssz_fixed_len", coq: "encode_default_ssz_fixed_len" },
+    Target { file: "ssz/src/encode.rs", imp: "trait Encode", tr: "", name: "as_ssz_bytes", coq: "encode_default_as_ssz_bytes" },
+    Target { file: "ssz/src/lib.rs", imp: "", tr: "", name: "ssz_encode", coq: "ssz_encode" },
     Target { file: "ssz/src/decode.rs", imp: "SszDecoderBuilder", tr: "", name: "new", coq: "builder_new" },
     Target { file: "ssz/src/decode.rs", imp: "SszDecoderBuilder", tr: "", name: "register_type", coq: "builder_register_type" },
+    Target { file: "ssz/src/decode.rs", imp: "SszDecoderBuilder", tr: "", name: "register_anonymous_variable_length_item", coq: "builder_register_anonymous" },
     Target { file: "ssz/src/decode.rs", imp: "SszDecoderBuilder", tr: "", name: "build", coq: "builder_build" },
     Target { file: "ssz/src/decode.rs", imp: "SszDecoder", tr: "", name: "decode_next_with", coq: "decoder_decode_next_with" },
     Target { file: "ssz/src/decode.rs", imp: "SszDecoder", tr: "", name: "decode_next", coq: "decoder_decode_next" },
@@ -264,6 +267,9 @@ const TARGETS: &[Target] = &[
     Target { file: "ssz/src/encode/impls.rs", imp: "FixedBytes<N>", tr: "Encode", name: "ssz_fixed_len", coq: "fixedbytes_enc_ssz_fixed_len" },
     Target { file: "ssz/src/encode/impls.rs", imp: "FixedBytes<N>", tr: "Encode", name: "ssz_bytes_len", coq: "fixedbytes_ssz_bytes_len" },
     Target { file: "ssz/src/encode/impls.rs", imp: "FixedBytes<N>", tr: "Encode", name: "ssz_append", coq: "fixedbytes_ssz_append" },
+    Target { file: "ssz/src/encode/impls.rs", imp: "FixedBytes<N>", tr: "Encode", name: "as_ssz_bytes", coq: "fixedbytes_as_ssz_bytes" },
+    Target { file: "ssz/src/encode/impls.rs", imp: "Bloom", tr: "Encode", name: "as_ssz_bytes", coq: "bloom_as_ssz_bytes" },
+    Target { file: "ssz/src/encode/impls.rs", imp: "Bytes", tr: "Encode", name: "as_ssz_bytes", coq: "alloy_bytes_as_ssz_bytes" },
     Target { file: "ssz/src/encode/impls.rs", imp: "Bloom", tr: "Encode", name: "is_ssz_fixed_len", coq: "bloom_enc_is_ssz_fixed_len" },
     Target { file: "ssz/src/encode/impls.rs", imp: "Bloom", tr: "Encode", name: "ssz_fixed_len", coq: "bloom_enc_ssz_fixed_len" },
     Target { file: "ssz/src/encode/impls.rs", imp: "Bloom", tr: "Encode", name: "ssz_bytes_len", coq: "bloom_ssz_bytes_len" },
@@ -335,6 +341,8 @@ struct Cx {
     /// impl key of the function being translated ("Bitfield<Variable<N>>"), "" for a free function
     cur_imp: String,
     cur_tr: String,
+    /// types declared inside the function body, with the trait functions their local impls define (as terms)
+    local_impls: HashMap<String, HashMap<String, String>>,
     /// numeric type parameters in scope (`N: Unsigned`): `N::to_usize()` is the variable `tN`
     tparams: Vec<String>,
     /// local variables and parameters that hold a value of a translated record type
@@ -580,7 +588,7 @@ fn int_lit(e: &Expr) -> Option<u128> {
 impl Cx {
     fn new(records: HashMap<String, Vec<String>>, res_fns: HashMap<String, String>) -> Self {
         Cx { fresh: 0, binds: vec![], self_rec: None, records, res_fns, fn_params: vec![], aliases: HashMap::new(), u8ctx: false, mut_methods: vec![], notes: vec![],
-             cur_imp: String::new(), cur_tr: String::new(), tparams: vec![], var_rec: HashMap::new(), fns: HashMap::new(), ret_option: false, field_types: HashMap::new(), ret_none: "Ok None".to_string(), dict_params: vec![], dict_used: vec![], list_vars: vec![], mut_param: None, borrows: HashMap::new(), dict_bounds: HashMap::new(), var_ty: HashMap::new(), expected_ty: None, dict_sigs: HashMap::new() }
+             cur_imp: String::new(), cur_tr: String::new(), local_impls: HashMap::new(), tparams: vec![], var_rec: HashMap::new(), fns: HashMap::new(), ret_option: false, field_types: HashMap::new(), ret_none: "Ok None".to_string(), dict_params: vec![], dict_used: vec![], list_vars: vec![], mut_param: None, borrows: HashMap::new(), dict_bounds: HashMap::new(), var_ty: HashMap::new(), expected_ty: None, dict_sigs: HashMap::new() }
     }
 
     fn var(&mut self, hint: &str) -> String {
@@ -844,6 +852,9 @@ impl Cx {
         let ty = ty.replace(' ', "");
         let short = if tr == "Encode" { "enc" } else { "dec" };
         let default_fixed_len = if tr == "Encode" { "encode_default_ssz_fixed_len" } else { "decode_default_ssz_fixed_len" };
+        if let Some(ms) = self.local_impls.get(&ty) {
+            return Ok(match ms.get(m) { Some(t) => t.clone(), None if m == "ssz_fixed_len" => default_fixed_len.to_string(), None => return Err(format!("the local type {} does not define {}", ty, m)) });
+        }
         if let Some(p) = Self::prim_prefix(&ty) {
             return Ok(format!("{}_{}_{}", p, short, m));
         }
@@ -889,6 +900,9 @@ impl Cx {
     /// `<ty as _>::m` as a function term, for m in ssz_append / ssz_bytes_len / from_ssz_bytes
     fn td_fn(&mut self, ty: &str, m: &str) -> R<String> {
         let ty = ty.replace(' ', "");
+        if let Some(ms) = self.local_impls.get(&ty) {
+            return ms.get(m).cloned().ok_or_else(|| format!("the local type {} does not define {}", ty, m));
+        }
         if let Some(p) = Self::prim_prefix(&ty) {
             return Ok(format!("{}_{}", p, m));
         }
@@ -1628,7 +1642,7 @@ impl Cx {
                 return Ok((format!("{} {}", f, args.join(" ")), Comp));
             }
         }
-        if (name == "ssz_append" || name == "ssz_bytes_len") && self.rec_of_expr(&m.receiver).is_none() {
+        if (name == "ssz_append" || name == "ssz_bytes_len" || name == "as_ssz_bytes") && self.rec_of_expr(&m.receiver).is_none() {
             if let Some(pt) = self.prim_type(&m.receiver) {
                 if let Some(info) = self.fns.get(&format!("{}::Encode::{}", pt, name)).cloned() {
                     let mut args = vec![self.val(&m.receiver)?];
@@ -2219,6 +2233,32 @@ impl Cx {
                 } else {
                     return Err(format!("unsupported macro statement {}!", name));
                 }
+            }
+            // a type declared inside the body with its trait impl (`struct Anonymous; impl Decode for Anonymous {..}`):
+            // recorded, so that `f::<Anonymous>()` can be instantiated at it
+            Stmt::Item(Item::Struct(st)) if st.fields.is_empty() => {
+                self.local_impls.entry(st.ident.to_string()).or_default();
+                self.block(rest, k)?
+            }
+            Stmt::Item(Item::Impl(imp)) if matches!(&*imp.self_ty, Type::Path(tp) if self.local_impls.contains_key(&path_last(&tp.path))) => {
+                let ty = match &*imp.self_ty { Type::Path(tp) => path_last(&tp.path), _ => String::new() };
+                for ii in &imp.items {
+                    if let ImplItem::Fn(m) = ii {
+                        let name = m.sig.ident.to_string();
+                        let term = match m.block.stmts.as_slice() {
+                            [Stmt::Expr(Expr::Lit(l), None)] => match &l.lit {
+                                syn::Lit::Bool(b) => format!("Ok {}", b.value),
+                                syn::Lit::Int(i) => format!("Ok {}", i.base10_digits()),
+                                _ => return Err(format!("unsupported body of the local impl function {}::{}", ty, name)),
+                            },
+                            [Stmt::Macro(mm)] if matches!(path_last(&mm.mac.path).as_str(), "unreachable" | "panic" | "unimplemented") => "(fun _ => Panic)".to_string(),
+                            [Stmt::Expr(Expr::Macro(mm), _)] if matches!(path_last(&mm.mac.path).as_str(), "unreachable" | "panic" | "unimplemented") => "(fun _ => Panic)".to_string(),
+                            _ => return Err(format!("unsupported body of the local impl function {}::{}", ty, name)),
+                        };
+                        self.local_impls.entry(ty.clone()).or_default().insert(name, term);
+                    }
+                }
+                self.block(rest, k)?
             }
             Stmt::Item(_) => return Err("nested item".into()),
         };
@@ -3213,7 +3253,14 @@ fn main() {
                             if let syn::TraitItem::Fn(m) = ti {
                                 if m.sig.ident == t.name {
                                     if let Some(b) = &m.default {
-                                        hit = Some((m.sig.clone(), b.clone(), String::new(), vec![], vec![]));
+                                        let has_recv = m.sig.inputs.iter().any(|a| matches!(a, FnArg::Receiver(_)));
+                                        if has_recv {
+                                            // the implementing type is a dictionary parameter `T: Trait`
+                                            impl_bounds.insert("T".to_string(), vec![("T".to_string(), trt.ident.to_string())]);
+                                            hit = Some((m.sig.clone(), b.clone(), "T".to_string(), vec![], vec!["T".to_string()]));
+                                        } else {
+                                            hit = Some((m.sig.clone(), b.clone(), String::new(), vec![], vec![]));
+                                        }
                                     }
                                 }
                             }
@@ -3346,7 +3393,7 @@ fn main() {
                     if records.contains_key(&base) {
                         params.push(format!("(self : {})", base));
                     } else {
-                        match self_ty_coq(imp_key) {
+                        match self_ty_coq(imp_key).or_else(|| if imp_key == "T" && dict_params.iter().any(|d| d == "T") { Some("A_T".to_string()) } else { None }) {
                             Some(t) => {
                                 if t.contains("A_T") {
                                     force_type_param = true;
@@ -3449,15 +3496,16 @@ fn main() {
                     if used.is_empty() && !(force_type_param && d == "T") {
                         continue;
                     }
-                    if used.iter().any(|u| matches!(u.as_str(), "from_ssz_bytes" | "try_from_iter" | "ssz_append" | "ssz_bytes_len")) || (force_type_param && d == "T") {
+                    if used.iter().any(|u| matches!(u.as_str(), "from_ssz_bytes" | "try_from_iter" | "ssz_append" | "ssz_bytes_len" | "as_ssz_bytes")) || (force_type_param && d == "T") {
                         dparams.push(format!("{{A_{} : Type}}", d));
                         declared_types.push(d.clone());
                     }
-                    for m in ["is_ssz_fixed_len", "ssz_fixed_len", "ssz_bytes_len", "ssz_append", "from_ssz_bytes", "try_from_iter", "cmp"] {
+                    for m in ["is_ssz_fixed_len", "ssz_fixed_len", "ssz_bytes_len", "ssz_append", "as_ssz_bytes", "from_ssz_bytes", "try_from_iter", "cmp"] {
                         if used.iter().any(|u| *u == m) {
                             sig_members.push(format!("{}_{}", d, m));
                             dparams.push(match m {
                                 "cmp" => format!("({}_{} : A_{} -> A_{} -> comparison)", d, m, d, d),
+                                "as_ssz_bytes" => format!("({}_{} : A_{} -> outcome bytes)", d, m, d),
                                 "is_ssz_fixed_len" => format!("({}_{} : bool)", d, m),
                                 "ssz_fixed_len" => format!("({}_{} : N)", d, m),
                                 "ssz_bytes_len" => format!("({}_{} : A_{} -> outcome N)", d, m, d),
